@@ -50,8 +50,10 @@ simulaqron.  Nothing is ever written under /repo or /verif.
 Public API (see the individual docstrings):
 
     install_reactor() -> MemoryReactorClock
-    SimNet(names, max_qubits=5, max_regs=100, topology=None, rng=None, host_order=None)
+    SimNet(names, max_qubits=5, max_regs=100, topology=None, rng=None, host_order=None, bringup=None)
         .nodes .clock .rng .trace .last_schedule .log
+        bring-up mode only (see `SimNet._bring_up`): .run_until(t) .missing_connections()
+        .retry_deadlines() .connection_log;  bringing_up(spec) = context manager
         .client(name) -> RemoteReference            .label(cid) .head(cid)
         .pending(detail=False) .deliver(cid) .timers() .fire_next_timer(i=0)
         .advance(dt) .flush_decrefs()
@@ -82,6 +84,7 @@ import tempfile
 __all__ = [
     "install_reactor", "SimNet", "NqNet", "FifoScheduler", "RandomScheduler", "DelayInjection", "PCTScheduler",
     "Replay", "Hang", "ReplayDivergence", "error_class", "error_text", "frame", "parse_replies", "program",
+    "bringing_up",
 ]
 
 _REACTOR = None
@@ -267,6 +270,32 @@ def _config_file(names, topology, network_name="default", extra_networks=None):
     os.replace(fn + ".tmp", fn)
     _CFG_CACHE[key] = fn
     return fn
+
+
+# ---------------------------------------------------------------------------
+# staggered bring-up (optional; nothing here changes a SimNet built without it)
+# ---------------------------------------------------------------------------
+
+_BRINGUP_DEFAULT = None
+
+
+class bringing_up:
+    """`with bringing_up(spec): ...` -- every SimNet constructed inside the
+    block WITHOUT an explicit `bringup=` argument is built with `bringup=spec`
+    (for code that constructs its SimNet itself, e.g. `vnetcase.Exec`)."""
+
+    def __init__(self, spec):
+        self.spec, self.prev = spec, None
+
+    def __enter__(self):
+        global _BRINGUP_DEFAULT
+        self.prev, _BRINGUP_DEFAULT = _BRINGUP_DEFAULT, self.spec
+        return self
+
+    def __exit__(self, *exc):
+        global _BRINGUP_DEFAULT
+        _BRINGUP_DEFAULT = self.prev
+        return False
 
 
 # ---------------------------------------------------------------------------
@@ -638,6 +667,11 @@ class SimNet:
                 config file the nodes belong to (default "default");
                 extra_networks {name: {"nodes": [...], "topology": ...}}:
                 further networks written to the same file (not started).
+                bringup: None (default: all nodes exist and are fully
+                connected before the constructor returns) or a dict -- the
+                nodes come up one after the other and connections to peers
+                that are not listening yet are refused and retried by the
+                node's own retry logic; see `_bring_up`.
 
     Attributes: nodes {name: virtualNode}, clock (the MemoryReactorClock),
     rng, config_file, trace (every action executed so far, incl. connection
@@ -653,7 +687,7 @@ class SimNet:
       (a second client of the same node is "cli2:A->A", ...)."""
 
     def __init__(self, names, max_qubits=5, max_regs=100, topology=None, rng=None, host_order=None,
-                 network_name="default", extra_networks=None):
+                 network_name="default", extra_networks=None, bringup=None):
         global _LIVE, _Pipe
         ns = _boot()
         self._ns = ns
@@ -697,6 +731,12 @@ class SimNet:
         self._pb = pb
         self.nodes = {}
         self._sfac = {}
+        self._bringup = None
+        if bringup is None:
+            bringup = _BRINGUP_DEFAULT
+        if bringup is not None:
+            self._bring_up(bringup, host_order)
+            return
         for n in self.names:
             conf = ns.SocketsConfig(self.config_file, network_name=network_name, config_type="vnode")
             self.nodes[n] = ns.V.virtualNode(conf.hostDict[n], conf, maxQubits=max_qubits, maxRegisters=max_regs)
@@ -716,6 +756,181 @@ class SimNet:
         for n in self.names:
             if not self.nodes[n].remote_check_connections():
                 raise RuntimeError("node %s did not obtain all its connections" % n)
+
+    # -- staggered bring-up ------------------------------------------------
+
+    def _bring_up(self, spec, host_order):
+        """Bring-up mode (constructor argument `bringup`, a dict):
+
+          "start"  {name: virtual time (s) at which that node's process body
+                   runs}, default 0.0 each; ties and the default: in `names`
+                   order.  A node LISTENS from that moment on.
+          "at"     virtual time at which the constructor returns (default: the
+                   latest start time); programs are then run against a
+                   network some of whose directed connections may still be
+                   missing (`missing_connections()`).
+          "retry"  simulaqron_settings.conn_retry_time in seconds (written to
+                   the in-memory settings, no write-through; default: left as
+                   it is)
+          "main"   True: each node is started by the REAL process body
+                   `simulaqron.start.start_vnode.main(name, network_name)`
+                   (signal handlers stubbed from outside; Backend.start ->
+                   virtualNode(...) + reactor.listenTCP + reactor.run on the
+                   fake reactor; max_qubits / max_regs go through the
+                   in-memory settings); default False: `virtualNode(...)` is
+                   constructed directly, as in the default mode.
+
+        Every connect attempt the code under test makes (`reactor.connectTCP`,
+        recorded by the fake reactor) is decided at the virtual time it is
+        made: target listening -> a real PB connection over scheduled pipes
+        "A->B"/"A<-B" (as in the default mode); else
+        `clientConnectionFailed(ConnectionRefusedError)`, on which the node's
+        own `handle_connection_error` arms its retry timer.
+
+        The retry timers (`reactor.callLater(conn_retry_time,
+        self.connect_to_node, node)`) are BACKGROUND timers: they are not
+        offered to schedulers, not listed by `timers()` and not fired by
+        `settle()` -- they fire by themselves, in deadline order, whenever
+        the virtual clock passes their deadline because `run()` / `settle()`
+        / `fire_next_timer()` fires a later (ordinary) timer or `run_until(t)`
+        is called.  So virtual time stands still while a program only does
+        things that need no waiting, an operation that waits for a missing
+        connection (the polling `get_connection`) moves the clock until the
+        node's retry has succeeded, and `run_until` lets time pass between
+        operations.  `connection_log` lists (time, from, to, accepted?) of
+        every decided attempt."""
+        ns, R = self._ns, self.clock
+        start = {n: float((spec.get("start") or {}).get(n, 0.0)) for n in self.names}
+        if spec.get("retry") is not None:
+            ns.settings._config["conn_retry_time"] = float(spec["retry"])
+        via_main = bool(spec.get("main"))
+        del R.tcpServers[:]
+        self.connection_log = []
+        self._bringup = {"listening": set(), "seen": 0, "start": start, "main": via_main}
+        order = sorted(self.names, key=lambda n: (start[n], self.names.index(n)))
+        self.start_order = order
+        if via_main:
+            SV = sys.modules.get("simulaqron.start.start_vnode")
+            if SV is None:
+                import simulaqron.start  # noqa: F401  (its __init__ rebinds the names to the main() functions)
+                SV = sys.modules["simulaqron.start.start_vnode"]
+            if SV.reactor is not R:
+                raise RuntimeError("start_vnode holds a real reactor")
+
+            import signal as _signal
+
+            class _Sig:
+                SIGTERM, SIGINT = _signal.SIGTERM, _signal.SIGINT
+
+                @staticmethod
+                def signal(*a):
+                    return None
+            SV.signal = _Sig
+            ns.settings._config["max_qubits"] = self.max_qubits
+            ns.settings._config["max_registers"] = self.max_regs
+        for n in order:
+            self.run_until(start[n])
+            if via_main:
+                before = len(R.tcpServers)
+                R.running = False
+                SV.main(n, self.network_name, "WARNING")
+                R.hasStopped = False
+                R.running = False
+                made = [e[1] for e in R.tcpServers[before:]]
+                if len(made) != 1 or not isinstance(getattr(made[0], "root", None), ns.V.virtualNode):
+                    raise RuntimeError("start_vnode.main(%s) did not leave one listening virtual node: %r" % (n, made))
+                self.nodes[n] = made[0].root
+                self._sfac[n] = made[0]
+            else:
+                conf = ns.SocketsConfig(self.config_file, network_name=self.network_name, config_type="vnode")
+                self.nodes[n] = ns.V.virtualNode(conf.hostDict[n], conf, maxQubits=self.max_qubits,
+                                                 maxRegisters=self.max_regs)
+                self._sfac[n] = self._pb.PBServerFactory(self.nodes[n])
+            self._bringup["listening"].add(n)
+            self.set_host_order(host_order if host_order is not None else self.names)
+            self._connects()
+            self.settle(fire_timers=False)
+        self.nodes = {n: self.nodes[n] for n in self.names}
+        self.run_until(float(spec.get("at", max(start.values()))))
+
+    @staticmethod
+    def _is_retry(call):
+        f = getattr(call, "func", None)
+        return getattr(getattr(f, "__func__", None), "__name__", None) == "connect_to_node"
+
+    def _connects(self):
+        """bring-up mode: decide every connect attempt recorded since the last call"""
+        b, R = self._bringup, self.clock
+        from twisted.internet.error import ConnectionRefusedError as _Refused
+        from twisted.python.failure import Failure
+        while b["seen"] < len(R.tcpClients):
+            idx = b["seen"]
+            b["seen"] += 1
+            factory = R.tcpClients[idx][2]
+            edge = None
+            for n, nd in self.nodes.items():
+                for h in nd.config.hostDict.values():
+                    if h.name != n and getattr(h, "factory", None) is factory:
+                        edge = (n, h.name)
+            if edge is None:
+                raise RuntimeError("connect attempt to port %s by an unknown party" % (R.tcpClients[idx][1],))
+            a, t = edge
+            ok = t in b["listening"]
+            self.connection_log.append((R.seconds(), a, t, ok))
+            if ok:
+                self._wire(t, factory, "%s->%s" % (a, t), "%s<-%s" % (a, t), a)
+                mine = self._pipes[-2:]
+                while any(p.nreal for p in mine):       # the handshake completes at this instant (as in client())
+                    for p in mine:
+                        if p.nreal:
+                            self.deliver(p.cid)
+            else:
+                factory.clientConnectionFailed(R.connectors[idx], Failure(_Refused()))
+
+    def _fire_call(self, call):
+        if call.getTime() > self.clock.rightNow:
+            self.clock.rightNow = call.getTime()
+        self.clock.calls.remove(call)
+        call.called = 1
+        call.func(*call.args, **call.kw)
+
+    def _fire_retries(self, upto):
+        """bring-up mode: the background (connection retry) timers due by `upto` fire, in deadline order"""
+        while True:
+            self.clock._sortCalls()
+            due = [c for c in self.clock.calls if self._is_retry(c) and c.getTime() <= upto]
+            if not due:
+                return
+            self._fire_call(due[0])
+            self._connects()
+
+    def run_until(self, t):
+        """bring-up mode: let virtual time pass until `t` -- every timer due by
+        then (background or not) fires in deadline order, connect attempts are
+        decided, all messages are delivered (FIFO) in between.  Not recorded in
+        `trace`."""
+        self._check_live()
+        if self._bringup is None:
+            raise RuntimeError("run_until() needs a SimNet built with bringup=...")
+        while True:
+            self.settle(fire_timers=False)
+            self.clock._sortCalls()
+            calls = self.clock.calls
+            if not calls or calls[0].getTime() > t:
+                break
+            self._fire_call(calls[0])
+            self._connects()
+        if t > self.clock.rightNow:
+            self.clock.rightNow = t
+
+    def missing_connections(self):
+        """[(a, b)]: node a has (not yet) a connection to node b, in names order"""
+        return [(a, b) for a in self.names if a in self.nodes for b in self.names
+                if b != a and b not in self.nodes[a].conn]
+
+    def retry_deadlines(self):
+        """bring-up mode: sorted deadlines (virtual time) of the armed connection retry timers"""
+        return sorted(c.getTime() for c in self.clock.calls if self._is_retry(c))
 
     # -- wiring ------------------------------------------------------------
 
@@ -852,6 +1067,8 @@ class SimNet:
 
     def _calls(self):
         self.clock._sortCalls()
+        if self._bringup is not None:
+            return [c for c in self.clock.calls if not self._is_retry(c)]      # see _bring_up: background timers
         return self.clock.calls
 
     def timers(self):
@@ -880,6 +1097,11 @@ class SimNet:
         if call.getTime() != t0:
             raise ValueError("timer %d is not due first" % i)
         self.trace.append(("t", i))
+        if self._bringup is not None:
+            self._fire_retries(t0)
+            self._fire_call(call)
+            self._connects()
+            return
         if t0 > self.clock.rightNow:
             self.clock.rightNow = t0
         calls.remove(call)
@@ -958,12 +1180,19 @@ class SimNet:
         self.last_schedule = self.trace[mark:]
         return box[0] if single else box
 
-    def settle(self, scheduler=None, max_virtual_time=600.0, fire_timers=True):
+    def settle(self, scheduler=None, max_virtual_time=600.0, fire_timers=None):
         """Run until quiescent: no message pending and (fire_timers=True) no
         timer pending.  Returns True if quiescence was reached, False if the
         virtual-time budget ran out first (timers that re-arm forever).
-        Trailing decrefs are flushed."""
+        Trailing decrefs are flushed.  fire_timers=None (default) means True,
+        except in bring-up mode (see `_bring_up`), where it means False: there
+        virtual time passes only when an operation waits (`run`) or on
+        `run_until`, so the idle timers an operation leaves behind (the
+        1..4 s lock time-out of `_lock_nodes`, which is never cancelled) do
+        not make the connection retries fire."""
         self._check_live()
+        if fire_timers is None:
+            fire_timers = self._bringup is None
         sched = scheduler if scheduler is not None else self._fifo
         mark = len(self.trace)
         t0 = self.clock.seconds()
